@@ -18,7 +18,7 @@ META = {
     "rule": ("case = module-rooted builder program (JSON AST, + optional metadata / order links); distinct by JSON; "
              "non-trivial as for C01"),
     "required": ["monitor:binding-contract", "monitor:shadow-read", "monitor:M-HIER", "monitor:M-PORTS",
-                 "monitor:M-LINK", "monitor:M-SYM", "monitor:M-CONST", "monitor:M-ORDER", "monitor:M-META",
+                 "monitor:M-LINK", "monitor:M-SYM", "monitor:M-CONST", "monitor:M-ORDER", "monitor:M-META", "monitor:M-SIG",
                  "feature:call", "feature:order-link", "feature:cfg", "feature:conditional", "feature:metadata",
                  "feature:const-loaded", "feature:unused-output", "feature:poly-func"],
     "reach": ["hugr.model.export:ModelExport.export_node", "hugr.model.export:ModelExport.export_region_dfg",
@@ -288,6 +288,15 @@ def check_export(ctx, h, case, stratum, reads):
         if len(mn.inputs) != nin or len(mn.outputs) != nout:
             key = None
             bad("M-PORTS", [n.idx, type(op).__name__], [nin, nout], [len(mn.inputs), len(mn.outputs)], key)
+        # ---- M-SIG: the node's signature term has one entry per listed port
+        sg = mn.signature
+        if isinstance(sg, model.Apply) and sg.symbol == "core.fn" and len(sg.args) == 2 \
+                and all(isinstance(a, model.List) for a in sg.args) \
+                and not any(isinstance(x, model.Splice) for a in sg.args for x in a.parts):
+            ctx.count("monitor:M-SIG")
+            if [len(sg.args[0].parts), len(sg.args[1].parts)] != [nin, nout]:
+                bad("M-SIG", [n.idx, type(op).__name__], [nin, nout],
+                    [len(sg.args[0].parts), len(sg.args[1].parts)])
         for i, name in enumerate(mn.inputs[:nin]):
             listed.append((InPort(n, i), name, "cons"))
         for i, name in enumerate(mn.outputs[:nout]):
